@@ -50,6 +50,8 @@ type c32In struct {
 	Requests    []c32Req   `json:"requests"`
 	NA          int        `json:"na"`
 	NG          int        `json:"ng"`
+	PeerIDs     []int      `json:"peer_ids"` // kind survivors: endpoints of the peers (equal numbers = same host:port)
+	Target      int        `json:"target"`
 }
 
 type c32Out struct {
@@ -64,6 +66,7 @@ type c32Out struct {
 	ReqG    [][]int `json:"req_g"`
 	Dep     []string `json:"dep"`
 	Err     string  `json:"err"`
+	After   []int   `json:"after"` // the caller's peers slice after the call
 }
 
 func c32Role(r int) string {
@@ -134,6 +137,7 @@ func c32Peers(ps [][]int) []*cluster.Peer {
 
 func c32Run(in c32In) (out c32Out) {
 	out.N, out.Kind = in.N, in.Kind
+	peersArg := c32Peers(in.Peers)
 	defer func() {
 		if r := recover(); r != nil {
 			out.Err = fmt.Sprint("panic: ", r)
@@ -152,7 +156,7 @@ func c32Run(in c32In) (out c32Out) {
 				loads[i] = int(l)
 			}
 		}
-		leader, shares, unpl := allocateActors(c32Roles(in.LeaderRoles), c32Peers(in.Peers), &internalpb.PeerState{Actors: actors}, loads)
+		leader, shares, unpl := allocateActors(c32Roles(in.LeaderRoles), peersArg, &internalpb.PeerState{Actors: actors}, loads)
 		out.Leader = c32ActorIDs(leader)
 		for _, s := range shares {
 			out.Shares = append(out.Shares, c32ActorIDs(s))
@@ -216,7 +220,7 @@ func c32Run(in c32In) (out c32Out) {
 		}
 		failures := &relocationFailures{}
 		failures.record("pre-existing", false, errors.New("earlier failure"))
-		shares, leader, grains := reassignByRole(reqs, c32Peers(in.Peers), c32Roles(in.LeaderRoles), failures)
+		shares, leader, grains := reassignByRole(reqs, peersArg, c32Roles(in.LeaderRoles), failures)
 		for _, s := range shares {
 			out.Shares = append(out.Shares, c32ActorIDs(s))
 		}
@@ -233,8 +237,38 @@ func c32Run(in c32In) (out c32Out) {
 				out.Failed = append(out.Failed, c32ID(f.GetId()))
 			}
 		}
+	case "survivors":
+		mk := func(id int) *cluster.Peer {
+			return &cluster.Peer{Host: "10.0.2." + strconv.Itoa(id), RemotingPort: 9000 + id, PeersPort: 7000 + id}
+		}
+		peers := make([]*cluster.Peer, 0, len(in.PeerIDs))
+		for _, id := range in.PeerIDs {
+			peers = append(peers, mk(id))
+		}
+		res := survivingPeersExcept(peers, mk(in.Target))
+		out.Leader = []int{}
+		for _, p := range res {
+			out.Leader = append(out.Leader, p.RemotingPort-9000)
+		}
+		out.After = []int{}
+		for _, p := range peers {
+			out.After = append(out.After, p.RemotingPort-9000)
+		}
 	default:
 		out.Err = "unknown kind " + in.Kind
+	}
+	if in.Kind == "alloc" || in.Kind == "reassign" {
+		// the callers keep using their peers slice (relocate hands the same slice to every share goroutine)
+		want := c32Peers(in.Peers)
+		got := peersArg
+		if len(got) != len(want) {
+			out.Err = "the peers slice changed length"
+		}
+		for i := range want {
+			if i < len(got) && (got[i] == nil || got[i].Host != want[i].Host || got[i].RemotingPort != want[i].RemotingPort) {
+				out.Err = "the peers slice passed by the caller was modified"
+			}
+		}
 	}
 	return out
 }
